@@ -21,6 +21,7 @@ type nativeCase struct {
 	Model  map[string]uint64 `json:"model"`
 	Sched  []int             `json:"sched,omitempty"`
 	Params map[string]int    `json:"params,omitempty"`
+	NoSched []string         `json:"nosched,omitempty"`
 }
 
 type nativeResult struct {
@@ -48,6 +49,7 @@ type zzCase struct {
 	Model  map[string]uint64 ` + "`json:\"model\"`" + `
 	Sched  []int             ` + "`json:\"sched\"`" + `
 	Params map[string]int    ` + "`json:\"params\"`" + `
+	NoSched []string         ` + "`json:\"nosched\"`" + `
 }
 
 type zzResult struct {
@@ -76,6 +78,7 @@ func TestVerifNative(t *testing.T) {
 		v.SetModel(c.Model)
 		v.SetParams(c.Params)
 		v.SetSched(c.Sched)
+		v.SetNoSched(c.NoSched)
 		res := zzResult{Index: i, Entry: c.Entry}
 		func() {
 			defer func() {
@@ -174,6 +177,9 @@ func runNative(repo, pkgPath string, harness []string, entries []string, cases [
 		if len(other) < 60 {
 			other = append(other, line)
 		}
+	}
+	if os.Getenv("VERIF_SCHEDDBG") != "" {
+		fmt.Println(strings.Join(other, "\n"))
 	}
 	if len(results) != len(cases) {
 		return results, fmt.Errorf("native run produced %d of %d results (err=%v):\n%s", len(results), len(cases), runErr, strings.Join(other, "\n"))
